@@ -2,8 +2,8 @@ from engine.core import Job
 META = dict(
     level="proof",
     claim="Primitive sizes/alignments/signedness and the type constructors equal the psABI table (real initialisers); align_to/align_down are the least/greatest multiple for every power-of-two alignment <= 64 and n < 2^30; struct_decl and union_decl produce, for every combination of member kinds (plain, bit-field of any width incl. zero width, unnamed), packed and aligned() attribute, exactly the psABI 3.1.2 offsets, bit positions, size and alignment, and the layout is overlap-free and unit-respecting. Layout is bounded to 3 members per aggregate (reported as bounded); member type sizes are case-split (they are divisors).",
-    note="Trusted: CBMC, spec/psabi_layout.h. The token-consuming struct_union_decl is replaced by a contract returning a prepared member list (assumed). Not covered: specifier decoding (declspec), declarators, offsetof macro, anonymous nested aggregates.",
-    functions=["parse.c:struct_decl", "parse.c:union_decl", "parse.c:align_down", "codegen.c:align_to", "type.c:pointer_to", "type.c:array_of", "type.c:enum_type", "type.c:copy_type", "type.c:func_type", "type.c:new_type"],
+    note="Trusted: CBMC, spec/psabi_layout.h. The token-consuming struct_union_decl is replaced by a contract returning a prepared member list (assumed). struct_members builds member descriptors (type, index, name, bit-field width, alignment = _Alignas or the type's) on a concrete token shape with declspec/declarator/const_expr as stand-in stubs. Not covered: specifier decoding (declspec), declarators, offsetof macro, anonymous nested aggregates, flexible array members.",
+    functions=["parse.c:struct_members", "parse.c:struct_decl", "parse.c:union_decl", "parse.c:align_down", "codegen.c:align_to", "type.c:pointer_to", "type.c:array_of", "type.c:enum_type", "type.c:copy_type", "type.c:func_type", "type.c:new_type"],
     trusted_base=["CBMC 6.11", "spec/psabi_layout.h (psABI 3.1.2 + GCC bit-field rules)"],
     assumptions=["struct_union_decl returns the aggregate type with its member list built (contract)"],
 )
@@ -25,6 +25,9 @@ def jobs(tier):
                           mode="legacy", replace=["struct_union_decl"], cut=CUT, unwind=5, tier=t, timeout=600, replay=None,
                           bounded="3 members per aggregate (member sizes case-split over {1,2,4,8}^3)",
                           sample=f"{'union' if un else 'struct'} of up to 3 members with type sizes {a},{b},{c}; bit-field flags/widths/named/packed/aligned symbolic"))
+    js.append(Job(name="struct_members", src="members.c", group="C08.3 member descriptors", mode="plain", cut=CUT, units=["type.c", "codegen.c"],
+                  redirect={"declspec": "stub_declspec", "declarator": "stub_declarator", "const_expr": "stub_const_expr"}, cbmc_flags=["--paths lifo"], unwind=20, timeout=600, replay=None,
+                  bounded="one concrete token shape (4 members), member types/_Alignas/width symbolic", sample="struct_members on `T a; T b, c; T : w; }` with symbolic member types"))
     # over-aligned middle member (_Alignas(16))
     for (a, b, c) in [(1, 4, 1), (4, 8, 2)]:
         js.append(Job(name=f"struct-{a}-{b}-{c}-alignas16", src="layout.c", group="C08.3/4 aggregate layout", defs={"S0": str(a), "S1": str(b), "S2": str(c), "A1": "16", "NO_BITFIELDS": ""},
